@@ -1057,6 +1057,8 @@ class Interp(object):
         if isinstance(root, ast.Name) and root.id not in fr.state.env:
             r = self.P.resolve_expr(fr.module, e, fr.limports)
             if r is not None:
+                if r[0] == "func" and r[1].cls is not None and "classmethod" in [ast.unparse(d) for d in r[1].node.decorator_list]:
+                    return AV(kind=K_FUNC, ref=("bound", r[1], AV(kind=K_CLASS, ref=("class", r[1].cls))))     # Class.method binds the class
                 return self.ref_av(r)
         base = self.ev(e.value, fr)
         return self.load_attr(fr, base, e.attr, e)
@@ -1072,6 +1074,11 @@ class Interp(object):
                         self.emit("attr-read", fr, node, obj=o.id, attr=attr, via="property", is_param=o.is_param)
                         ret, _, _ = self.call_function(meth, {meth.params[0]: base}, state, fr, node, self_obj=o)
                         return ret
+                    decos = [ast.unparse(d) for d in meth.node.decorator_list]
+                    if "staticmethod" in decos:
+                        return AV(kind=K_FUNC, ref=("func", meth))
+                    if "classmethod" in decos:
+                        return AV(kind=K_FUNC, ref=("bound", meth, AV(kind=K_CLASS, ref=("class", o.cls))))
                     return AV(kind=K_FUNC, ref=("bound", meth, base))
             if attr in o.attrs:
                 self.emit("attr-read", fr, node, obj=o.id, attr=attr, via="plain", is_param=o.is_param)
@@ -1099,6 +1106,8 @@ class Interp(object):
         if base.kind == K_CLASS and base.ref:
             meth = base.ref[1].find_method(attr)
             if meth is not None:
+                if "classmethod" in [ast.unparse(d) for d in meth.node.decorator_list]:
+                    return AV(kind=K_FUNC, ref=("bound", meth, base))        # Class.method(...) binds the class itself
                 return AV(kind=K_FUNC, ref=("func", meth))
         if base.kind in (K_ARRAY, K_SCALAR, K_TOP, K_BOOL) and base.kind != K_TOP or (base.kind == K_TOP and attr in self.api.ND_ATTRS):
             v = self.api.nd_attr(self, fr, base, attr, node)
